@@ -3,6 +3,7 @@ package ssaexec
 import (
 	"fmt"
 	"go/types"
+	"os"
 	"strings"
 
 	"golang.org/x/tools/go/ssa"
@@ -99,6 +100,28 @@ func intrinsics() map[string]intrinsic {
 		m["sync/atomic.CompareAndSwap"+p.suffix] = atomicCAS(p.w)
 		m["sync/atomic.Swap"+p.suffix] = atomicSwap(p.w)
 	}
+	// ---- internal/bytealg (assembly in the real runtime)
+	indexByte := func(st *State, fn *ssa.Function, args []Value) Value {
+		a := args[0].(Agg)
+		n := st.concreteInt(tm(a[1]), "IndexByte length")
+		c := tm(args[1])
+		if n == 0 {
+			return st.c.Const(^uint64(0), 64)
+		}
+		bs := st.loadBytes(tm(a[0]), n)
+		for i, b := range bs {
+			eq := st.simplifyUnderDomains(st.c.Eq(b, c), map[uint32]*smt.Term{}, 0)
+			if eq.IsFalse() {
+				continue
+			}
+			if eq.IsTrue() || st.branch(eq, "indexbyte") {
+				return st.c.Const(uint64(i), 64)
+			}
+		}
+		return st.c.Const(^uint64(0), 64)
+	}
+	m["internal/bytealg.IndexByte"] = indexByte
+	m["internal/bytealg.IndexByteString"] = indexByte
 	// ---- fmt / errors used only to build error values
 	m["fmt.Sprintf"] = func(st *State, fn *ssa.Function, args []Value) Value { return st.constString("<fmt>") }
 	m["fmt.Sprint"] = m["fmt.Sprintf"]
@@ -488,6 +511,12 @@ func (st *State) assertProp(id string, cond *smt.Term) {
 				conjs = []*smt.Term{cond}
 			}
 			for _, cj := range conjs {
+				if _, _, fmask, uni := st.univariate(cj); uni && !nonEmpty(fmask) {
+					// holds for every value in the byte's domain (complete when the path
+					// condition constrains bytes only individually)
+					st.w.Stats.FastDecided++
+					continue
+				}
 				n := len(st.fails)
 				st.recordFail(id, "ASSERT", "assertion "+id+" can fail", st.c.BNot(cj))
 				if len(st.fails) > n && !strings.HasPrefix(st.fails[len(st.fails)-1].Kind, "UNKNOWN") {
@@ -502,6 +531,9 @@ func (st *State) assertProp(id string, cond *smt.Term) {
 	if !cond.IsTrue() {
 		if _, _, _, uni := st.univariate(cond); !uni {
 			st.multiVar = true
+			if traceDec {
+				fmt.Fprintf(os.Stderr, "MULTIVAR %s %v\n", st.curPos(), cond)
+			}
 		}
 		// continue under the assumption that it held
 		v, tmask, _, uni := st.univariate(cond)
